@@ -21,8 +21,31 @@ global evoff Int
 global evlen Int
 global triggered BoolArr  -- events whose Trigger was called by the running call (ghost)
 
+global rmem (Array Int (Array Int Bool))   -- reactive set -> element -> member (ghost model of the Set interface; int elements)
+global rcard IntArr                        -- reactive set -> number of elements (ghost)
+global lastdel Bool                        -- result of the last Set.Delete of the running Done (ghost)
+global lastcnt Int                         -- result of the last counter decrement of the running Done (ghost)
+global anydel Bool                         -- some Delete of the running Done removed an element (ghost)
+
+global lastcond Bool                       -- what the counter's condition said about the new input value (ghost)
+
 type evictionState
   monitor mutex level 5 guards lastEvictedSlot
+
+type counter
+  callback condition(v) (r)
+
+-- the reactive Set interface as used by the WaitGroup: membership and cardinality
+func Set.Add(s, e) (r)
+  modifies ghost(rmem), ghost(rcard)
+  ensures r <==> !old(sel(sel(rmem, s), e))
+  ensures rmem == upd(old(rmem), s, upd(sel(old(rmem), s), e, true))
+  ensures rcard == upd(old(rcard), s, sel(old(rcard), s) + (r ? 1 : 0))
+func Set.Delete(s, e) (r)
+  modifies ghost(rmem), ghost(rcard)
+  ensures r <==> old(sel(sel(rmem, s), e))
+  ensures rmem == upd(old(rmem), s, upd(sel(old(rmem), s), e, false))
+  ensures rcard == upd(old(rcard), s, sel(old(rcard), s) - (r ? 1 : 0))
 
 func Event.Trigger(e) (r)
   modifies ghost(triggered)
@@ -96,4 +119,58 @@ func evictionState.LastEvictedSlot
   opt sequential
   requires e != nil && unlocked(e.mutex)
   ensures unlocked(e.mutex) && (e.lastEvictedSlot == nil ==> r0 == 0) && (e.lastEvictedSlot != nil ==> r0 == *e.lastEvictedSlot)
+
+-- ---------------------------------------------------------------------------------------------------------------
+-- WaitGroup: the atomic counter follows the number of pending elements (it is raised BEFORE elements are inserted,
+-- so it is never below that number while an Add is under way), and the group is triggered exactly by the Done that
+-- removed a pending element and brought the counter to zero
+func waitGroup.Add
+  instantiate T: int
+  opt sequential
+  opt assume-no-overflow
+  requires w != nil && w.pendingElements != nil && len(elements) <= MaxInt32
+  modifies atomic(w.pendingElementsCounter), ghost(rmem), ghost(rcard)
+  ghost before call Set.Add: assert aload(w.pendingElementsCounter) - sel(rcard, w.pendingElements) >= old(aload(w.pendingElementsCounter) - sel(rcard, w.pendingElements))
+  loop 1 invariant w.pendingElements == old(w.pendingElements)
+  loop 1 invariant aload(w.pendingElementsCounter) - sel(rcard, w.pendingElements) == old(aload(w.pendingElementsCounter) - sel(rcard, w.pendingElements)) + (len(elements) - (rangeindex + 1))
+  loop 1 invariant forall i Int :: 0 <= i && i <= rangeindex ==> sel(sel(rmem, w.pendingElements), elements[i])
+  ensures aload(w.pendingElementsCounter) - sel(rcard, w.pendingElements) == old(aload(w.pendingElementsCounter) - sel(rcard, w.pendingElements))
+  ensures forall i Int :: 0 <= i && i < len(elements) ==> sel(sel(rmem, w.pendingElements), elements[i])
+
+func waitGroup.Done
+  instantiate T: int
+  opt sequential
+  opt assume-no-overflow
+  requires w != nil && w.pendingElements != nil && w.Event != nil
+  requires aload(w.pendingElementsCounter) == sel(rcard, w.pendingElements)       -- no Add under way (sequential reading)
+  modifies atomic(w.pendingElementsCounter), ghost(rmem), ghost(rcard), ghost(triggered), ghost(lastdel), ghost(lastcnt), ghost(anydel)
+  ghost at entry: anydel = false
+  ghost at entry: triggered = upd(triggered, w.Event, false)
+  ghost after call Set.Delete: lastdel = result
+  ghost after call Set.Delete: anydel = anydel || result
+  ghost after call Int32.Add: lastcnt = result
+  ghost before call Event.Trigger: assert lastdel && lastcnt == 0 && aload(w.pendingElementsCounter) == 0 && sel(rcard, w.pendingElements) == 0
+  loop 1 invariant w.pendingElements == old(w.pendingElements) && w.Event == old(w.Event)
+  loop 1 invariant aload(w.pendingElementsCounter) == sel(rcard, w.pendingElements)
+  loop 1 invariant sel(triggered, w.Event) ==> anydel
+  loop 1 invariant anydel && aload(w.pendingElementsCounter) == 0 ==> sel(triggered, w.Event)
+  ensures aload(w.pendingElementsCounter) == sel(rcard, w.pendingElements)
+  -- triggered by this call only if it removed a pending element ...
+  ensures sel(triggered, w.Event) ==> anydel
+  -- ... and if it removed one and none is pending any more, it has triggered
+  ensures anydel && aload(w.pendingElementsCounter) == 0 ==> sel(triggered, w.Event)
+
+-- ---------------------------------------------------------------------------------------------------------------
+-- Counter: per monitored input the counter moves by +1 when the condition becomes true for that input and by -1 when
+-- it stops being true, and remembers which of the two holds (so the counter is the number of inputs whose last
+-- reported value satisfies the condition)
+func counter.Monitor$1$1
+  instantiate InputType: int
+  opt assume-no-overflow
+  requires c != nil && *c != nil && (*c).condition != nil && newInputValue != nil && conditionWasTrue != nil
+  modifies *conditionWasTrue, ghost(lastcond)
+  ghost after call counter#condition: lastcond = result
+  ghost before call counter#condition: assert arg0 == *newInputValue
+  ensures *conditionWasTrue == lastcond
+  ensures r0 == currentValue + ((lastcond && !old(*conditionWasTrue)) ? 1 : 0) - ((!lastcond && old(*conditionWasTrue)) ? 1 : 0)
 @*/
